@@ -6,7 +6,7 @@ import itertools
 
 import numpy
 
-from . import hist
+from . import core, hist
 from . import models as M
 
 U32 = numpy.dtype(numpy.uint32)
@@ -345,6 +345,44 @@ def reindexed_merge_family(ctx, tier):
                         _check(ctx, r, exp, opd, "reindexed")
 
 
+def indx_family(ctx, tier):
+    """An index saved with the narrowest row-id word its row count allows (8 / 16 / 32 bits), loaded and rebuilt: the rebuilt index must be
+    well-formed and stand for the same array. The entries together list more cells than the narrow word can count."""
+    import os
+
+    from catii.iindexes import iindex
+    from catii.indxio import IndxIO
+
+    shapes = [(200, 3), (256, 2), (250, 5), (60000, 2), (40000, 3), (65536, 2), (70000, 2)]
+    if tier == "thorough":
+        shapes += [(255, 40), (65535, 5)]
+    for shape in shapes:
+        d = _pattern(shape)
+        word = numpy.dtype(numpy.uint8 if shape[0] <= 256 else numpy.uint16 if shape[0] <= 65536 else numpy.uint32)
+        for common in (0, 2):
+            opd = {"op": "indx-roundtrip", "big": "indx-narrow", "shape": list(shape), "common": common, "rowid_word": word.name}
+            ix = iindex.from_array(d, common=common)
+            ents = {k: numpy.asarray(v).astype(word) for k, v in ix.items()}
+            ctx.seq = getattr(ctx, "seq", 0) + 1
+            path = os.path.join(core.scratch_dir(), "bi-%d-%d.indx" % (os.getpid(), ctx.seq))
+            try:
+                try:
+                    with open(path, "wb") as f:
+                        IndxIO.save(f, ents, common, word)
+                except Exception:
+                    continue            # a writer may refuse narrow row ids (C11 decides what it writes)
+                with open(path, "rb") as f:
+                    loaded, cm, dt = IndxIO.load(f)
+                    loaded = {k: numpy.array(v, copy=True) for k, v in loaded.items()}
+                back = iindex(loaded, cm, tuple(shape))
+                _check(ctx, back, d, opd, "indx-roundtrip")
+            except Exception as e:  # noqa
+                ctx.v("C06", "indx-roundtrip:raised", opd, repr(e))
+            finally:
+                if os.path.exists(path):
+                    os.unlink(path)
+
+
 def parts(prop):
     """Three independent families as functions (res, tier) -> (violations of `prop`, counters)."""
     def mk(fn, label):
@@ -354,7 +392,8 @@ def parts(prop):
             return [v for v in ctx.viol if v["property"] == prop], {label: ctx.n}
         return run
     return [mk(repr_family, "representation_cases_of_entry_updates"), mk(collapse_mapping_family, "collapsed_with_mapping_cases"), mk(big_family, "wide_and_tall_index_operations"),
-            mk(numpy_length_family, "operations_after_filtered_with_a_numpy_length"), mk(reindexed_merge_family, "reindexed_merging_three_or_more_values")]
+            mk(numpy_length_family, "operations_after_filtered_with_a_numpy_length"), mk(reindexed_merge_family, "reindexed_merging_three_or_more_values"),
+            mk(indx_family, "narrow_word_indx_roundtrips")]
 
 
 def family(res, tier, prop):
